@@ -69,7 +69,7 @@ Section Snap.
   Notation step := (step B true fxc).
   Variable t : nat.                          (* the snapshotting thread *)
   Variable Ob : nat -> nat -> val -> Prop.   (* the obligation: (block, index, value) *)
-  Variable n0 : nat.                         (* number of calls t had completed when it did 530 *)
+  Variable r0 : list res.                    (* t's results when it did 530 *)
 
   Definition covered (h : list block) (acc : list (list val)) (o : option nat) : Prop :=
     forall d i x, Ob d i x -> In x (concat acc) \/ Reach h o d.
@@ -84,12 +84,12 @@ Section Snap.
     end.
 
   Definition snap_done (l : local) : Prop :=
-    exists rs1 sl rs0, results l = rs1 ++ RData sl :: rs0 /\ length rs0 = n0 /\ forall d i x, Ob d i x -> In x (concat sl).
+    exists rs1 sl, results l = rs1 ++ RData sl :: r0 /\ forall d i x, Ob d i x -> In x (concat sl).
 
   Definition SnapInv (c : @config shared local) : Prop :=
     (forall d i x, Ob d i x -> slot (heap (fst c)) d i = Some x /\ pub (heap (fst c)) d i) /\
     (forall l, nth_error (snd c) t = Some l ->
-               (length (results l) = n0 /\ snap_pc (heap (fst c)) l) \/ snap_done l).
+               (results l = r0 /\ snap_pc (heap (fst c)) l) \/ snap_done l).
 
   Lemma covered_step s ls u l s' l' acc o :
     Inv B (s, ls) -> nth_error ls u = Some l -> step s l = Some (s', l') ->
@@ -137,9 +137,16 @@ Section Snap.
     - intros l Hlt. destruct (Nat.eq_dec u t) as [->|Hne].
       + (* the snapshotting thread itself steps *)
         rewrite (nth_error_upd_same _ _ _ _ Hl) in Hlt. inversion Hlt; subst l. clear Hlt.
-        destruct (HT lu Hl) as [[Hn Hs]|(rs1 & sl & rs0 & Er & Hl0 & Hin)].
+        destruct (HT lu Hl) as [[Hn Hs]|(rs1 & sl & Er & Hin)].
         * pose proof (HP t lu Hl) as Hpl. unfold pc_ok in Hpl. unfold snap_pc in Hs.
           assert (Eres : forall m k td rs, results (enter m k td rs) = rs) by (intros m k [|[]] rs; reflexivity).
+          assert (Es : s' = s).
+          { clear - Hst Hs. unfold Model.step in Hst. destruct (pcl lu); try contradiction; destruct clr; try contradiction;
+              repeat match type of Hst with
+                     | context [match bnxt ?k with _ => _ end] => destruct (bnxt k)
+                     | context [if ?c then _ else _] => destruct c
+                     end; inversion Hst; reflexivity. }
+          subst s'.
           step_inv Hst Epc; try contradiction; try (destruct clr; try contradiction);
             unfold snap_pc; cbn [goto mk pcl results heap].
           -- (* 504, block fully published *)
@@ -170,17 +177,72 @@ Section Snap.
              left. cbn [concat]. apply in_or_app. left. destruct (HOb _ _ _ Hx) as [Hsl _].
              eapply In_data; eauto.
           -- (* 532, more blocks *) left. split; [exact Hn|].
-             match goal with E : bnxt _ = Some _ |- _ => rewrite E in Hs end. exact Hs.
+             exact Hs.
           -- (* 532, end of the chain: the call returns *)
-             right. exists [], (rev acc), (results lu). unfold finish. rewrite Eres. cbn [walk_res app]. repeat split; auto.
-             intros d i x Hx. match goal with E : bnxt _ = None |- _ => rewrite E in Hs end.
+             right. exists [], (rev acc). unfold finish. rewrite Eres, Hn. cbn [walk_res app]. split; auto.
+             intros d i x Hx.
              destruct (Hs d i x Hx) as [Hin|R]; [|destruct (Reach_None _ _ R)].
              rewrite in_concat in *. destruct Hin as (y & Hy & Hxy). exists y. split; auto. apply in_rev in Hy. exact Hy.
-        * right. destruct (step_results B fxc s lu s' lu' Hst) as [E|[r E]]; rewrite E, Er.
-          -- exists rs1, sl, rs0. auto.
-          -- exists (r :: rs1), sl, rs0. auto.
+        * right. unfold snap_done. destruct (step_results B fxc s lu s' lu' Hst) as [E|[r E]]; rewrite E, Er.
+          -- exists rs1, sl. auto.
+          -- exists (r :: rs1), sl. auto.
       + rewrite nth_error_upd_other in Hlt by auto.
         destruct (HT l Hlt) as [[Hn Hs]|Hd]; [left|right; exact Hd].
-        split; [exact Hn|]. eapply snap_pc_mono; eauto.
+        split; [exact Hn|]. exact (snap_pc_mono s ls u lu s' lu' l HI Hl Hst (HP t l Hlt) Hs).
+  Qed.
+
+  Lemma SnapInv_exec c sched : All B c -> SnapInv c -> SnapInv (fst (exec step site c sched)).
+  Proof.
+    intros HA HS.
+    exact (proj2 (invariant_all_schedules step site (fun c => All B c /\ SnapInv c) Snap_step sched c (conj HA HS))).
   Qed.
 End Snap.
+
+Section SnapThm.
+  Variable B : nat.
+  Hypothesis HB : 1 <= B.
+  Variable fxc : bool.
+  Notation step := (step B true fxc).
+
+  (* the 530 step: the thread picks up the tail pointer and changes nothing *)
+  Lemma snapshot_first_step s l b0 :
+    pcl l = W0 false -> tail s = Some b0 -> step s l = Some (s, goto l (W1 false b0 [])).
+  Proof. intros E Et. unfold Model.step. rewrite E, Et. reflexivity. Qed.
+
+  (* where a walking thread stands: the slices it was handed so far and the block it reads next *)
+  Definition walk_pos (h : list block) (l : local) : option (list (list val) * option nat) :=
+    match pcl l with
+    | W1 _ b acc | W2 _ b _ acc | WS _ b acc | WD _ b acc => Some (acc, Some b)
+    | WN _ b acc => Some (acc, bnxt (getb h b))
+    | _ => None
+    end.
+
+  Theorem snapshot_sees_completed c t l b0 sched :
+    All B c -> nth_error (snd c) t = Some l -> pcl l = W1 false b0 [] ->
+    let c' := fst (exec step site c sched) in
+    forall l', nth_error (snd c') t = Some l' ->
+    (* still inside the call: every obligation is already handed out or still ahead *)
+    (results l' = results l /\
+     exists acc o, walk_pos (heap (fst c')) l' = Some (acc, o) /\
+       forall d i x, Reach (heap (fst c)) (Some b0) d -> slot (heap (fst c)) d i = Some x -> pub (heap (fst c)) d i ->
+                     In x (concat acc) \/ Reach (heap (fst c')) o d) \/
+    (* the call has returned: every obligation is in the slices handed to the callback *)
+    (exists rs1 sl, results l' = rs1 ++ RData sl :: results l /\
+       forall d i x, Reach (heap (fst c)) (Some b0) d -> slot (heap (fst c)) d i = Some x -> pub (heap (fst c)) d i ->
+                     In x (concat sl)).
+  Proof.
+    intros HA Hl Hpc c' l' Hl'.
+    set (Ob := fun d i x => Reach (heap (fst c)) (Some b0) d /\ slot (heap (fst c)) d i = Some x /\ pub (heap (fst c)) d i).
+    assert (H0 : SnapInv t Ob (results l) c).
+    { split; [intros d i x (_ & Hs & Hp); auto|].
+      intros y Hy. rewrite Hl in Hy. inversion Hy; subst y. left. split; [reflexivity|].
+      unfold snap_pc. rewrite Hpc. intros d i x (R & _). right. exact R. }
+    destruct (SnapInv_exec B HB fxc t Ob (results l) c sched HA H0) as [_ HT]. fold c' in HT.
+    destruct (HT l' Hl') as [[Er Hs]|(rs1 & sl & Er & Hin)].
+    - left. split; [exact Er|]. unfold snap_pc in Hs. unfold walk_pos.
+      destruct (pcl l') eqn:E; try contradiction; destruct clr; try contradiction;
+        eexists; eexists; (split; [reflexivity|]); intros d i x R Hsl Hp;
+        first [apply (Hs d i x) | apply (proj1 Hs d i x)]; unfold Ob; auto.
+    - right. exists rs1, sl. split; [exact Er|]. intros d i x R Hsl Hp. apply (Hin d i x). unfold Ob. auto.
+  Qed.
+End SnapThm.
